@@ -165,6 +165,23 @@ def run(rep, tier, seed, tr_errors):
     kf = lib.load_known_findings()
     reps = 2 if tier == "quick" else 14
     bad, judged, skipped, stats = [], 0, 0, {}
+    for f_ in kf.get("findings", []):          # recorded reproducers run first
+        if f_.get("property") == PROP and "reproducer" in f_:
+            o_ = dict(f_["reproducer"])
+            try:
+                import numpy as np
+                with warnings.catch_warnings():
+                    warnings.simplefilter("ignore")
+                    fr, Zr = rebuild(o_)
+                    r0_ = kk_run(fr, Zr, o_)
+                    r1_ = kk_run(fr, o_["factor"] * Zr, o_)
+                    d_ = float(np.max(abs(np.asarray(r1_.residuals) - np.asarray(r0_.residuals))))
+                    sb_ = max(sentinel_bound(o_, fr, Zr), sentinel_bound(o_, fr, o_["factor"] * Zr))
+                if 1e-8 < d_ <= 10 * sb_ + 1e-8:
+                    rep.known.append("%s: %s" % (f_["id"], f_["what"]))
+                rep.evaluations += 2
+            except Exception:  # noqa
+                pass
     for test in kk.TESTS_LS + kk.TESTS_MI:
         for adm in (False, True):
             for _ in range(reps):
